@@ -111,6 +111,16 @@ check("C11", "exploration",
       "bounded-exhaustive matrix enumeration on the real type checker with a twin (differential) oracle",
       "DESIGN.md §3/C11")
 
+check("C12", "exploration",
+      "Matrix of constness sources (const global/template local/function local, value and reference parameters of functions "
+      "and templates, typedef'd const, select/iteration/forall/exists/sum binders) x type shapes (int, bounded typedef, array "
+      "element with constant/variable index, struct field, array-of-struct field, matrix element) x 16 write forms "
+      "(assignment operators, ++/--, inline-if lvalues, chained assignment, non-const reference arguments direct and chained): "
+      "1524 documents decided by the real type checker; const cell must be rejected, its mutable twin accepted.",
+      "Quantifier binders have no accepted twin. Small scope: listed shapes/forms.",
+      "bounded-exhaustive matrix enumeration on the real type checker with a twin (differential) oracle",
+      "DESIGN.md §3/C12")
+
 check("C14", "exploration",
       "Full matrix: all ordered operand pairs from a typed pool x 11 commutative operators (a op b vs b op a), all ordered "
       "pairs as inline-if branches (c?a:b vs !c?b:a), and all ordered pairs of 16 typedef'd types as (argument, reference "
